@@ -209,7 +209,38 @@ ghost('is_closest_level', ['g', 'res', 'lvl'], """
                and (f == 0 or g.resolutions[f - 1] > res * g.stretch_factor), lvl == f))
     and implies(g.resolutions[g.levels - 1] > res * g.stretch_factor, lvl == g.levels - 1)""")
 
+def _reprojected_request(ex, st, post, result):
+    """variant with a request SRS: the rectangle used for choosing the level and the tiles is the request bbox transformed
+    from the request SRS to the grid SRS - exactly when the two differ - and it is what is returned"""
+    import z3
+    from pyvc.values import eq, VSeq
+    req_srs = post.env['req_srs']
+    own = st.heap[post.env['self'].ref]['srs']
+    tr = [e for i, e in _T2.evs(st, 'transform_bbox_to')]
+    differ = z3.And(ex.truth(st, req_srs), z3.Not(eq(req_srs, own)))
+    goal = z3.BoolVal(len(tr) <= 1 and isinstance(result, VSeq))
+    if tr:
+        goal = z3.And(goal, differ, z3.BoolVal(tr[0].recv is not None and tr[0].recv.t.eq(req_srs.t) and tr[0].args[-1] is post.env['bbox']
+                                               and result.items[0] is tr[0].result), eq(tr[0].args[0], own))
+    else:
+        goal = z3.And(goal, z3.Not(differ), z3.BoolVal(result.items[0] is post.env['bbox']))
+    yield ('request_rectangle_in_grid_srs', goal,
+           'req_srs given and different from the grid SRS <=> bbox is transformed by req_srs.transform_bbox_to(grid.srs, bbox); the '
+           'transformed (or original) rectangle is returned together with the level chosen for ITS resolution')
+
+
+from pyvc import tracelib as _T2  # noqa
 contract(G + 'TileGrid.get_affected_bbox_and_level', props=['C03', 'C01'],
+         variants=[{},
+                   dict(types=dict(bbox='tuple[real,real,real,real]', size='tuple[int,int]', req_srs='opaque'),
+                        # assumed about SRS.transform_bbox_to (pyproj): the image of a proper rectangle is a proper rectangle
+                        opaque_spec={'transform_bbox_to': {'returns': 'tuple[real,real,real,real]', 'pure': True,
+                                                           'effect': lambda ex, s2, ev: s2.assume(__import__('z3').And(
+                                                               ev.result.items[0].t < ev.result.items[2].t,
+                                                               ev.result.items[1].t < ev.result.items[3].t))}},
+                        raises={'NoTiles': True}, must_fail=None,
+                        ensures=['is_closest_level(self, min((result[0][2] - result[0][0]) / size[0], (result[0][3] - result[0][1]) / size[1]), result[1])'],
+                        trace=[_reprojected_request])],
          types=dict(bbox='tuple[real,real,real,real]', size='tuple[int,int]', req_srs='none'),
          returns='tuple[tuple[real,real,real,real],int]',
          requires=['grid_wf(self)', 'res_decreasing(self)', 'self.stretch_factor >= 1', 'self.threshold_res is None',
@@ -290,3 +321,33 @@ contract(G + 'TileGrid._calc_grids', props=['C03'],
                            grids[l][1][1] * self.tile_size[1] * self.resolutions[l] >= self.bbox[3] - self.bbox[1])))""",
          ])},
          must_fail='len(result) == 0')
+
+
+# ---- the composition used by every map request: bbox+size -> level -> tiles of that level -----------------------------------
+from pyvc import tracelib as _T  # noqa
+
+
+def _affected_chain(ex, st, post, result):
+    import z3
+    from pyvc.values import VSeq
+    a = [e for i, e in _T.evs(st, 'get_affected_bbox_and_level', 'TileGrid.get_affected_bbox_and_level')]
+    b = [e for i, e in _T.evs(st, 'get_affected_level_tiles', 'TileGrid.get_affected_level_tiles')]
+    ok = len(a) == 1 and len(b) == 1 and isinstance(a[0].result, VSeq) and result is b[0].result
+    goal = z3.BoolVal(bool(ok))
+    if ok:
+        aa = [x for x in a[0].args if x is not post.env['self']]
+        bb = [x for x in b[0].args if x is not post.env['self']]
+        ok2 = len(aa) == 2 and aa[0] is post.env['bbox'] and aa[1] is post.env['size'] and a[0].kwargs.get('req_srs') is post.env['req_srs'] \
+            and len(bb) == 2 and bb[0] is a[0].result.items[0] and bb[1] is a[0].result.items[1]
+        goal = z3.And(goal, z3.BoolVal(bool(ok2)))
+    yield ('tiles_of_the_level_chosen_for_this_request', goal,
+           'get_affected_tiles(bbox, size, req_srs) = get_affected_level_tiles(*get_affected_bbox_and_level(bbox, size, req_srs=req_srs))')
+
+
+contract(G + 'TileGrid.get_affected_tiles', props=['C03', 'C01'],
+         types=dict(bbox='opaque', size='opaque', req_srs='opaque'), returns='opaque', default_callee='opaque',
+         opaque_spec={'get_affected_bbox_and_level': {'returns': 'tuple[opaque,opaque]', 'raises': ['NoTiles'], 'pure': True},
+                      'get_affected_level_tiles': {'raises': ['GridError'], 'pure': True}},
+         opaque=['get_affected_bbox_and_level', 'get_affected_level_tiles'],
+         raises={'NoTiles': True, 'GridError': True},
+         trace=[_affected_chain])
